@@ -186,6 +186,26 @@ def lifecycle_migrated(r, idx):
     return {"cfg": cfg, "steps": steps, "tag": {"family": "lifecycle-migrated", "end": end, "idx": idx}}
 
 
+def lifecycle_closelost(r, idx):
+    """One side closes while its peer is in the middle of a transfer, and the first datagram(s) that
+    carry the close are lost; the peer's packets keep arriving, so the closer has to say it again."""
+    idle = r.choice([2000, 3000])
+    cfg = base_cfg(r, server={"idle_ms": idle}, client={"idle_ms": idle})
+    closer = r.choice([0, 1])
+    other = 1 - closer
+    cfg["server" if other == 0 else "client"]["cc"] = r.choice(["fixed:12000", "newreno", "fixed:3600"])
+    if r.random() < 0.3:
+        cfg["server" if other == 0 else "client"]["keep_alive_ms"] = 300
+    steps = [{"do": "connect", "n": 1}, {"do": "run_until", "what": "connected", "max_us": 20000000}, {"do": "run", "us": 100000},
+             {"do": "app", "n": other, "c": 0, "streams": [{"dir": r.choice([0, 1]), "size": r.choice([30000, 200000]), "chunk": 1 << 20, "finish": True}],
+              "read_max": 1 << 20, "ordered": True, "maxsize": 200000},
+             {"do": "run", "us": r.choice([5000, 30000, 80000])},
+             {"do": "fates", "dir": "s2c" if closer == 0 else "c2s", "list": ["x"] * r.choice([1, 1, 2, 4])},
+             {"do": "op", "n": closer, "c": 0, "op": {"op": "close", "code": r.choice([3, 77]), "reason": "bye"}},
+             {"do": "run", "us": 2 * idle * 1000 + 8000000}]
+    return {"cfg": cfg, "steps": steps, "tag": {"family": "lifecycle-closelost", "idx": idx}}
+
+
 # ------------------------------------------------------------------------------------------------
 # C01
 
